@@ -178,7 +178,7 @@ def to_tagged(j):
         return R.I(j)
     if isinstance(j, str):
         if j.startswith("f:"):
-            return ("f", float(j[2:]))
+            return ("f", float(j[2:]) + 0.0 if float(j[2:]) != 0.0 else 0.0)      # the sign of a zero is not compared
         return R.S([b for b in j.encode("utf-8", "surrogateescape")])
     if isinstance(j, list):
         return R.A([to_tagged(e) for e in j])
@@ -446,8 +446,41 @@ def run(tier, work):
         # reference gives a value to, in spellings the language manual allows)
         verdict.add({"kind": "does-not-compile", "msg": (errs[0] if errs else "?").split(":")[-1].strip()[:50]},
                     [open(os.path.join(mdir, fn + ".c")).read()[:20000]], "generated file %s does not compile: %s (%d files)" % (fn, errs, len(failed_files)))
-    accepted, nevents, rejects = vlib.validate_executions(SPEC, "LpcSemTrace", "LpcSemTrace.cfg", projs, work, max_rejects=200)
+    def signature_of(badi, upto):
+        b = projs[badi][upto] if upto < len(projs[badi]) else {"e": "?"}
+        srcs = []
+        if b.get("prog", "").startswith("p"):
+            pid = int(b["prog"][1:])
+            srcs = ["postfix: " + json.dumps(allp[pid][0])] + [s_ for n_, s_ in spellings(pid, allp[pid][0], allp[pid][1])]
+            tree, leaves = tree_of(allp[pid][0])
+            opk = tree[1] if tree[0] in ("bin", "un") else tree[0]
+            big = any(l_[0] == "i" and abs(l_[1]) >= (1 << 31) for l_ in leaves)
+            sig = {"kind": "wrong-value", "op": opk, "spelling": b.get("spelling"), "big": big, "err_expected": json.loads(b["expected"])[0] == "e",
+                   "got_err": json.loads(b["value"])[0] == "e"}
+            if tree[0] == "bin":     # value types of the two operands of the outermost operator
+                sig["ltype"] = value_of(tree[2], leaves)[0]
+                sig["rtype"] = value_of(tree[3], leaves)[0]
+        else:
+            g = int(b.get("prog", "s0")[1:])
+            srcs = [s_ for gg, exp, sps in groups if gg == g for n_, s_ in sps]
+            first = srcs[0] if srcs else ""
+            shape = "loop" if "acc" in first else "countdown" if "c--" in first or "while (c" in first else "switch" if "switch" in first or "if (x ==" in first or "if (x >=" in first \
+                else "incdec" if "++x" in first or "x--" in first else "rangeassign" if ".." in first else "float"
+            sig = {"kind": "spellings-disagree" if b.get("expected") == "any" else "wrong-value", "shape": shape, "spelling": b.get("spelling")}
+        return b, sig, srcs
+
+    def drop_known(badi, upto):
+        b, sig, srcs = signature_of(badi, upto)
+        if b.get("e") == "Result" and vlib.match_known(PROP, sig):
+            verdict.add(sig, srcs, "known")          # counted under its KNOWN-FINDING line
+            return True
+        return False
+
+    accepted, nevents, rejects = vlib.validate_executions(SPEC, "LpcSemTrace", "LpcSemTrace.cfg", projs, work, max_rejects=60, drop_if=drop_known)
     for badi, upto in rejects:
+        b, sig, srcs = signature_of(badi, upto)
+        verdict.add(sig, srcs, "%s / %s returned %s, expected %s" % (b.get("prog"), b.get("spelling"), b.get("value"), b.get("expected")))
+    for badi, upto in []:
         b = projs[badi][upto] if upto < len(projs[badi]) else {"e": "?"}
         fn, order, kind = files[badi]
         srcs = []
